@@ -80,6 +80,11 @@ type Fun struct {
 	// Bound collects every global name the function value was bound under
 	// (a stack trace may legitimately show any of them).
 	Bound map[string]bool
+	// AlwaysRaises marks a host builtin that fails the same way whatever it is called
+	// with and has no effect (verif:panic ...): a builtin that must call its callback at
+	// least once has that failure as its outcome, however often and in whatever order it
+	// calls.
+	AlwaysRaises bool
 }
 
 // Frame is one active call in the model's chain.
